@@ -7,6 +7,7 @@ from pmon.gen import strings as S, trees as T
 from pmon.checks import _text
 
 ID = 'C08'
+PYTEST_LAW = 'C08'     # also run /repo's own tests with this property's law attached
 RULE = ('every string of the bounded-exhaustive corpus (26-character alphabet incl. all six ASCII '
         'blanks, NBSP, U+2028, U+0085, U+3000; quick length<=3 + slices of length 4, thorough '
         'length<=4 complete and length 5/6 over sub-alphabets) plus token sequences and seeded '
